@@ -59,3 +59,9 @@ Theorem read_back_zipkin_but_parent : forall nd es rows ps,
   Forall2 (fun pe sr => reads_back (parent_len_ok (snd pe)) (fst pe) (read_row fixed es (fst sr))) (combine ps es) rows.
 Proof. exact zipkin_read_back. Qed.
 Print Assumptions read_back_zipkin_but_parent.
+
+(* The oracle the check evaluates on the IMPLEMENTATION's observations (spec_ok: rows_ok, tags_ok, reads_ok) accepts the
+   model's own output for every request: the three clauses above are what the correspondence run tests. *)
+Theorem model_meets_spec : forall inp, in_range inp -> spec_ok false (model_case fixed inp) = true.
+Proof. exact model_meets_spec_l. Qed.
+Print Assumptions model_meets_spec.
